@@ -293,6 +293,11 @@ let exec (s : t) (verbose : bool) (f : string array) (obs : string option) : str
     (match e with None -> "ok" | Some e -> "err " ^ eerr_name e) ^ " order " ^ order_s ^ events_str evs
   | "backup" ->
     let ((d, k), evs) = db_backup (get_db s) s.disk in
+    (* Backup makes the destination a copy of the data directory (stale data and hint files of an
+       earlier backup are removed); a merge directory next to the destination is not touched *)
+    let k = match Hashtbl.find_opt s.disks f.(2) with
+      | None -> k
+      | Some old -> { k with k_merge = old.k_merge } in
     s.db <- Some d; Hashtbl.replace s.disks f.(2) k;
     "ok" ^ events_str ~sorted:true evs
   | "pos" ->
